@@ -5,6 +5,7 @@ import NurbsVerif.Lemmas.LayoutVol
 import NurbsVerif.Lemmas.LayoutSweep
 import NurbsVerif.Lemmas.LayoutEval
 import NurbsVerif.Lemmas.Span
+import NurbsVerif.Lemmas.AssembleLayout
 
 /-!
 # C13  One control-net layout convention across all modules
@@ -292,5 +293,68 @@ example : c13WitnessSrf.WF := by unfold Srf.WF; decide
 example : constructVolume Dir.u c13WitnessVol.du c13WitnessVol.ku (extractSurfacesVW c13WitnessVol)
     = some c13WitnessVol := by decide
 example : transposeSrf c13WitnessSrf ≠ c13WitnessSrf := by decide
+
+/-! ## volume evaluation is tied to the layout `extract_surfaces` uses -/
+
+/-- **Volume evaluation through the extracted iso-surface families.**  For a volume with points of
+    one dimension and at least `degree+1` control points per direction, the point `evaluate_single`
+    computes at `(u, v, w)` is, in every coordinate,
+    * the degree-`dw` curve point at `w` of the polygon `[S(u, v) for S in extract_surfaces(vol)['uv']]`,
+    * the degree-`dv` curve point at `v` of the polygon `[S(u, w) for S in extract_surfaces(vol)['uw']]`,
+    * the degree-`du` curve point at `u` of the polygon `[S(v, w) for S in extract_surfaces(vol)['vw']]`,
+    each surface evaluated by the surface evaluator with its own degrees, knots, sizes and net (all spans
+    by the library's linear search).  So the flat index `v + sv·(u + su·w)` read by the volume evaluator
+    and the nets `extract_surfaces` builds describe the same tensor-product arrangement. -/
+theorem volume_eval_through_extracted_surfaces {K : Type} [Field K] [LinearOrder K] [IsStrictOrderedRing K]
+    (V : Vol (List K) (ℕ → K)) (d : ℕ) (h : V.WF) (hd : ∀ p ∈ V.pts, p.length = d)
+    (hdu : V.du + 1 ≤ V.su) (hdv : V.dv + 1 ≤ V.sv) (hdw : V.dw + 1 ≤ V.sw) (u v w : K) (j : ℕ) :
+    (volumePoint V.du V.dv V.dw V.ku V.kv V.kw V.su V.sv V.sw V.pts u v w).getD j 0
+      = (curvePoint V.dw V.kw ((extractSurfacesUV V).map fun S =>
+            surfacePoint S.du S.dv S.ku S.kv S.su S.sv S.pts u v) w).getD j 0 ∧
+    (volumePoint V.du V.dv V.dw V.ku V.kv V.kw V.su V.sv V.sw V.pts u v w).getD j 0
+      = (curvePoint V.dv V.kv ((extractSurfacesUW V).map fun S =>
+            surfacePoint S.du S.dv S.ku S.kv S.su S.sv S.pts u w) v).getD j 0 ∧
+    (volumePoint V.du V.dv V.dw V.ku V.kv V.kw V.su V.sv V.sw V.pts u v w).getD j 0
+      = (curvePoint V.du V.ku ((extractSurfacesVW V).map fun S =>
+            surfacePoint S.du S.dv S.ku S.kv S.su S.sv S.pts v w) u).getD j 0 :=
+  ⟨volumePoint_extractUV V d h hd hdu hdv hdw u v w j, volumePoint_extractUW V d h hd hdu hdv hdw u v w j,
+   volumePoint_extractVW V d h hd hdu hdv hdw u v w j⟩
+
+/-- The same on given spans (`volumePointAt` / `surfacePointAt` / `curvePointAt`, the inner loops of the
+    evaluators), any spans `ku ∈ [du, su)`, `kv ∈ [dv, sv)`, `kw ∈ [dw, sw)`, any parameters. -/
+theorem volume_eval_through_extracted_surfaces_at {K : Type} [Field K] [LinearOrder K] [IsStrictOrderedRing K]
+    (V : Vol (List K) (ℕ → K)) (d : ℕ) (h : V.WF) (hd : ∀ p ∈ V.pts, p.length = d) (ku kv kw : ℕ)
+    (hpu : V.du ≤ ku) (hpv : V.dv ≤ kv) (hpw : V.dw ≤ kw) (hku : ku < V.su) (hkv : kv < V.sv) (hkw : kw < V.sw)
+    (u v w : K) (j : ℕ) :
+    (volumePointAt V.du V.dv V.dw V.ku V.kv V.kw V.su V.sv V.pts ku kv kw u v w).getD j 0
+      = (curvePointAt V.dw V.kw ((extractSurfacesUV V).map fun S =>
+            surfacePointAt S.du S.dv S.ku S.kv S.sv S.pts ku kv u v) kw w).getD j 0 ∧
+    (volumePointAt V.du V.dv V.dw V.ku V.kv V.kw V.su V.sv V.pts ku kv kw u v w).getD j 0
+      = (curvePointAt V.dv V.kv ((extractSurfacesUW V).map fun S =>
+            surfacePointAt S.du S.dv S.ku S.kv S.sv S.pts ku kw u w) kv v).getD j 0 ∧
+    (volumePointAt V.du V.dv V.dw V.ku V.kv V.kw V.su V.sv V.pts ku kv kw u v w).getD j 0
+      = (curvePointAt V.du V.ku ((extractSurfacesVW V).map fun S =>
+            surfacePointAt S.du S.dv S.ku S.kv S.sv S.pts kv kw v w) ku u).getD j 0 :=
+  ⟨volumePointAt_extractUV V d h hd ku kv kw hpu hpv hpw hku hkv hkw u v w j,
+   volumePointAt_extractUW V d h hd ku kv kw hpu hpv hpw hku hkv hkw u v w j,
+   volumePointAt_extractVW V d h hd ku kv kw hpu hpv hpw hku hkv hkw u v w j⟩
+
+/-- a 2×3×2 volume of degrees (1, 2, 1) with planar control points (used only in the examples below) -/
+def c13EvalVol : Vol (List ℚ) (ℕ → ℚ) :=
+  { du := 1, dv := 2, dw := 1, ku := fnOf [0,0,1,1], kv := fnOf [0,0,0,1,1,1], kw := fnOf [0,0,1,1],
+    su := 2, sv := 3, sw := 2,
+    pts := [[0,0],[1,2],[2,0],[3,5],[4,1],[5,5],[6,0],[7,3],[8,8],[9,1],[10,0],[11,7]] }
+
+/-- non-vacuity: the hypotheses hold … -/
+example : c13EvalVol.WF ∧ (∀ p ∈ c13EvalVol.pts, p.length = 2) := by
+  refine ⟨by unfold Vol.WF; decide, by decide⟩
+
+/-- … and both sides are the same point at `(1/3, 1/2, 1/4)` -/
+example :
+    volumePoint c13EvalVol.du c13EvalVol.dv c13EvalVol.dw c13EvalVol.ku c13EvalVol.kv c13EvalVol.kw
+        c13EvalVol.su c13EvalVol.sv c13EvalVol.sw c13EvalVol.pts (1/3) (1/2) (1/4)
+      = curvePoint c13EvalVol.dw c13EvalVol.kw ((extractSurfacesUV c13EvalVol).map fun S =>
+          surfacePoint S.du S.dv S.ku S.kv S.su S.sv S.pts (1/3) (1/2)) (1/4) := by
+  decide +kernel
 
 end C13
